@@ -14,7 +14,9 @@
 From WG Require Import Base.Prelude Gen.Constants Pools.Model.
 Local Open Scope N_scope.
 
-Record obs := { o_counts : vec; o_selems : N; o_sconts : N }.
+(* o_owner: ownership defects found in the staged queues (elements given back to the pool while still queued, elements
+   or buffers referenced twice) *)
+Record obs := { o_counts : vec; o_selems : N; o_sconts : N; o_owner : N }.
 
 Definition baseline (c : cfg) (up closed : bool) : vec :=
   if closed then vzero else vadd (vout (dev_batch c) 0) (if up then vbuf (recv_bufs c) else vzero).
@@ -27,13 +29,14 @@ Definition sp_event (x : sp) (e : ev) : sp :=
   | EUp => {| x_up := true; x_closed := false |}
   | EDown => {| x_up := false; x_closed := false |}
   | EClose => {| x_up := false; x_closed := true |}
+  | EFatalRead => {| x_up := false; x_closed := true |}
   | _ => x
   end.
 
 Definition expected (c : cfg) (x : sp) (b : obs) : vec :=
   if x_closed x then vzero else vadd (baseline c (x_up x) false) (vout (o_selems b) (o_sconts b)).
 
-(* pools whose count differs: 1 inbound containers, 2 outbound containers, 3 message buffers,
+(* verdicts: 6 = a queued element is owned twice (or was given back while queued); pools whose count differs: 1 inbound containers, 2 outbound containers, 3 message buffers,
    4 inbound elements, 5 outbound elements *)
 Definition vdiff (a b : vec) : list N :=
   (if inC a =? inC b then [] else [1]) ++ (if outC a =? outC b then [] else [2]) ++
@@ -41,7 +44,8 @@ Definition vdiff (a b : vec) : list N :=
   (if outE a =? outE b then [] else [5]).
 
 Definition sp_step (c : cfg) (x : sp) (eb : ev * obs) : sp * list N :=
-  let x1 := sp_event x (fst eb) in (x1, vdiff (expected c x1 (snd eb)) (o_counts (snd eb))).
+  let x1 := sp_event x (fst eb) in
+  (x1, vdiff (expected c x1 (snd eb)) (o_counts (snd eb)) ++ (if o_owner (snd eb) =? 0 then [] else [6])).
 
 Definition verdicts (c : cfg) (tr : list (ev * obs)) : list (list N) := outs (sp_step c) sp_init tr.
 Definition holdsb (c : cfg) (tr : list (ev * obs)) : bool :=
@@ -52,7 +56,8 @@ Definition resting (ps : list peer) : vec := fold_right (fun q v => vadd (vstage
 Definition base_of (s : state) : vec := baseline (s_cfg s) (s_up s) (s_closed s).
 
 Definition observe (s : state) : obs :=
-  {| o_counts := outstanding s; o_selems := buf (resting (s_peers s)); o_sconts := outC (resting (s_peers s)) |}.
+  {| o_counts := outstanding s; o_selems := buf (resting (s_peers s)); o_sconts := outC (resting (s_peers s));
+     o_owner := 0 |}.
 
 Fixpoint model_trace (s : state) (evs : list ev) : list (ev * obs) :=
   match evs with
